@@ -159,7 +159,9 @@ def check(repo, rep, tier):
         for path, cases in res:
             for desc, p, v in cases:
                 ncases += 1
-                if isinstance(p, str):
+                if isinstance(p, str) and p.startswith("refuted"):
+                    bad.append((desc, p))
+                elif isinstance(p, str):
                     und.append((desc, p))
                 elif not p.is_zero():
                     bad.append((desc, p))
